@@ -150,5 +150,68 @@ def op_sparse_big(t):
         shutil.rmtree(d, ignore_errors=True)
 
 
+def op_sparse_big_wh(t):
+    """the three Widrow-Hoff entry points with a matrix of more than 2^32 cells on a sparse file.
+    omp_b2r: the WEIGHT matrix (n_od x n_cols) and the outcome-vector table (n_out_rows x n_od);
+    omp_r2b / omp_r2r: the cue-vector table (n_cue_rows x n_cd) (and, r2r, the outcome-vector table) -- their
+    weight matrix is updated densely by every event, so it stays small.  Only the listed rows are non-zero."""
+    d = _tmpdir()
+    try:
+        entry = t['entry']
+        n_cd, n_od = int(t.get('n_cd', 0)), int(t.get('n_od', 0))
+        files = []
+        for i, hx in enumerate(t['chunks']):
+            p = os.path.join(d, 'events_0_%d.dat' % i)
+            open(p, 'wb').write(bytes.fromhex(hx))
+            files.append(p)
+
+        def big_table(name, n_rows, n_dims, rows):
+            m = np.memmap(os.path.join(d, name), dtype=np.float64, mode='w+', shape=(int(n_rows), n_dims))
+            for k, vals in rows:
+                m[int(k), :] = [fl(v) for v in vals]
+            return m
+        cv = ov = None
+        if entry in ('omp_r2b', 'omp_r2r'):
+            cv = big_table('cue_vectors.mm', t['n_cue_rows'], n_cd, t['cue_rows'])
+        if entry in ('omp_b2r', 'omp_r2r'):
+            ov = big_table('outcome_vectors.mm', t['n_out_rows'], n_od, t['out_rows'])
+        if entry == 'omp_b2r':
+            W = np.memmap(os.path.join(d, 'weights.mm'), dtype=np.float64, mode='w+', shape=(n_od, int(t['n_cols'])))
+        else:
+            W = np.zeros((int(t['n_rows']), n_cd), dtype=np.float64)
+        chunk, n_jobs = int(t.get('chunk', 2)), int(t.get('n_jobs', 2))
+        res = {}
+        try:
+            if entry == 'omp_b2r':
+                ndl_openmp.learn_inplace_binary_to_real(files, fl(t['eta']), ov, W, chunk, n_jobs)
+            elif entry == 'omp_r2b':
+                ndl_openmp.learn_inplace_real_to_binary(files, fl(t['beta1']), fl(t['beta2']), fl(t['lambda']), cv, W, chunk, n_jobs)
+            elif entry == 'omp_r2r':
+                ndl_openmp.learn_inplace_real_to_real(files, fl(t['eta']), cv, ov, W, chunk, n_jobs)
+            else:
+                raise RuntimeError('bad entry')
+        except Exception as e:  # noqa
+            res = impl.err(e)
+        cells = []
+        if entry == 'omp_b2r':
+            for o in range(n_od):
+                for c in t['probe_cols']:
+                    v = float(W[o, c])
+                    if v != 0:
+                        cells.append([[o, c], rat(v)])
+            res['low_touched'] = bool(np.asarray(W[0, :4096]).any()) if min(t['probe_cols']) >= 4096 else False
+        else:
+            for o in range(W.shape[0]):
+                for c in range(W.shape[1]):
+                    if W[o, c] != 0:
+                        cells.append([[o, c], rat(W[o, c])])
+        res['cells'] = cells
+        res['table_cells'] = [int(x.shape[0]) * int(x.shape[1]) for x in (cv, ov, W) if x is not None]
+        del W, cv, ov
+        return res
+    finally:
+        shutil.rmtree(d, ignore_errors=True)
+
+
 OPS = {'write_events': op_write_events, 'read_binary': op_read_binary, 'kernel': op_kernel,
-       'sparse_big': op_sparse_big}
+       'sparse_big': op_sparse_big, 'sparse_big_wh': op_sparse_big_wh}
